@@ -19,7 +19,7 @@
 (***************************************************************************)
 EXTENDS JMES, Json, Toks, DocsApi
 
-CONSTANTS Emit, Prop, MaxCalls, MaxDocs, NTexts
+CONSTANTS Emit, Prop, MaxCalls, MaxDocs, NTexts, NPool, TextSel   \* texts used: TextSel \cap 1..NTexts
 
 VARIABLES hs, docs, calls
 vars == <<hs, docs, calls>>
@@ -33,13 +33,24 @@ Fn(name, args) == <<Id(name), LP>> \o args \o <<RP>>
 Sources == << <<A>>, <<A, LB, Star, RB>>, <<A, Flat>>, <<A, LB, IntT(<<48>>), Colon, RB>>, <<A, LB, Colon, Colon, IntT(<<49>>), RB>>,
               <<CurT, Dot, A>>, <<RootT, Dot, A>>, <<A, OrT, A>>, <<A, AndT, A>>, Fn(<<110,111,116,95,110,117,108,108>>, <<A>>), Fn(<<116,111,95,97,114,114,97,121>>, <<A>>),
               <<LB, A, RB, LB, IntT(<<48>>), RB>>, <<LBr, Id(<<107>>), Colon, A, RBr, Dot, Id(<<107>>)>>, <<A, PipeT, CurT>>,
-              <<Json(<<96,91,51,44,49,44,50,93,96>>)>>, <<A, Filt, Json(<<96,116,114,117,101,96>>), RB>>, <<LP, A, RP>>, Fn(<<118,97,108,117,101,115>>, <<LBr, Id(<<107>>), Colon, A, RBr>>) \o <<LB, IntT(<<48>>), RB>> >>
+              <<Json(<<96,91,51,44,49,44,50,93,96>>)>>, <<A, Filt, Json(<<96,116,114,117,101,96>>), RB>>, <<LP, A, RP>>,
+              \* a slice of a STRING is not a projection: its right-hand side is evaluated once
+              <<Id(<<115>>), LB, Colon, IntT(<<50>>), RB, Dot>> \o Fn(<<110,111,116,95,110,117,108,108>>, <<RootT, Dot, A>>),
+              Fn(<<110,111,116,95,110,117,108,108>>, <<Id(<<110,111,115,117,99,104>>), Comma, A>>), <<B, Dot, Id(<<107>>)>>, <<A, PipeT>> \o Fn(<<110,111,116,95,110,117,108,108>>, <<CurT>>),
+              Fn(<<109,97,112>>, <<AmpT, CurT, Comma, LB, A, RB>>) \o <<LB, IntT(<<48>>), RB>>, Fn(<<118,97,108,117,101,115>>, <<LBr, Id(<<107>>), Colon, A, RBr>>) \o <<LB, IntT(<<48>>), RB>> >>
 MutFns == << <<115,111,114,116>>, <<114,101,118,101,114,115,101>> >>
 Mutators == [i \in 1..(Len(Sources) * 2) |->
                LET src == Sources[((i - 1) \div 2) + 1]  f == MutFns[((i - 1) % 2) + 1] IN Fn(f, src)]
             \o [i \in 1..Len(Sources) |-> Fn(<<115,111,114,116,95,98,121>>, Sources[i] \o <<Comma, AmpT>> \o Fn(<<116,111,95,115,116,114,105,110,103>>, <<CurT>>))]
             \o << <<LetT, VarT(<<36,118>>), AssignT, A, InT>> \o Fn(<<115,111,114,116>>, <<VarT(<<36,118>>)>>),
                   <<LetT, VarT(<<36,118>>), AssignT, A, LB, Star, RB, InT, LB>> \o Fn(<<114,101,118,101,114,115,101>>, <<VarT(<<36,118>>)>>) \o <<Comma, VarT(<<36,118>>), RB>> >>
+
+\* the same text with characters around it that are blanks elsewhere but NOT
+\* JMESPath white space (vertical tab, form feed, NEL, no-break space): these
+\* are syntax errors, whatever was searched before
+Junk(c) == Tok("junk", <<c>>, FALSE)
+SpaceVariants == << <<A>>, <<A, Junk(160)>>, <<Junk(11), A>>, <<A, Junk(133)>>, <<A, Junk(12)>>, <<Junk(8232), A, Junk(8195)>>,
+                    <<A, Tok("dot", <<46>>, TRUE), Tok("id", <<98>>, TRUE)>>, <<A, Dot, Id(<<98>>)>> >>
 
 \* expressions chosen for what could go wrong behind the API: literals
 \* returned by reference from the AST, in-place sorts and reversals, slices
@@ -58,10 +69,12 @@ Texts == <<
   <<Json(<<96,123,34,107,34,58,91,50,44,49,93,125,96>>), Dot, Id(<<107>>)>>,
   Fn(<<109,97,120,95,98,121>>, <<A, Comma, AmpT, Id(<<107>>)>>),
   <<A, Flat>>, Fn(<<116,111,95,97,114,114,97,121>>, <<CurT>>), Fn(<<110,111,115,117,99,104>>, <<A>>), <<CurT>> >>
-  \o Mutators
+  \o Mutators \o SpaceVariants
 
 
-Init == hs = <<>> /\ docs = PoolApi /\ calls = <<>>
+AllSel == 1..Len(Texts)
+SpaceSel == (Len(Texts) - Len(SpaceVariants) + 1)..Len(Texts)
+Init == hs = <<>> /\ docs = SubSeq(PoolApi, 1, NPool) /\ calls = <<>>    \* the first NPool pool documents
 
 Static(t) == StaticAdmissible(Texts[t])
 Pinned1(S) == Cardinality(S) = 1 /\ \A o \in S : IsVal(o) /\ ~HasU(o)
@@ -93,8 +106,9 @@ FeedBack(c) ==
   /\ calls' = Append(calls, Rec("feedback", 0, 0, c, {}))
   /\ UNCHANGED hs
 
-Next == \/ \E t \in 1..NTexts : DoCompile(t) \/ DoMustCompile(t)
-        \/ \E t \in 1..NTexts, d \in 1..Len(docs) : OneShot(t, d)
+TS == TextSel \cap (1..NTexts)
+Next == \/ \E t \in TS : DoCompile(t) \/ DoMustCompile(t)
+        \/ \E t \in TS, d \in 1..Len(docs) : OneShot(t, d)
         \/ \E h \in 1..Len(hs), d \in 1..Len(docs) : ExprSearch(h, d)
         \/ \E c \in 1..Len(calls) : FeedBack(c)
 Spec == Init /\ [][Next]_vars
@@ -105,8 +119,10 @@ Immutable == [][ /\ \A d \in 1..Len(docs) : docs'[d] = docs[d]
                  /\ \A h \in 1..Len(hs) : hs'[h] = hs[h] ]_vars
 \* every search outcome is what a fresh evaluation of the same text on the
 \* same document gives, whatever happened before (C06)
-Pure == \A c \in 1..Len(calls) :
-          calls[c].op \in {"search", "exprsearch"} =>
+\* (stated for the call that was just appended: the earlier ones were checked
+\* in the predecessor state, and Immutable says they cannot have changed)
+Pure == LET c == Len(calls) IN
+        (c > 0 /\ calls[c].op \in {"search", "exprsearch"}) =>
             calls[c].out = Admissible(Texts[calls[c].t], docs[calls[c].d])
 \* a compiled expression never reports a static fault (C08)
 StaticAtCompile == \A c \in 1..Len(calls) :
@@ -122,8 +138,8 @@ Closed == \A d \in 1..Len(docs) : IsJValue(docs[d])
 
 Named2(ok, name) == ok \/ ~PrintT("MODELFAIL " \o name)
 Check ==
-  LET case == [p |-> Prop, kind |-> "hist", pool |-> "Api",
-               texts |-> [t \in 1..NTexts |-> Render(Texts[t])],
+  LET case == [p |-> Prop, kind |-> "hist", pool |-> "Api", npool |-> NPool,
+               texts |-> [t \in 1..(IF NTexts < Len(Texts) THEN NTexts ELSE Len(Texts)) |-> Render(Texts[t])],
                steps |-> [c \in 1..Len(calls) |->
                             [op |-> calls[c].op, t |-> calls[c].t, h |-> calls[c].h, d |-> calls[c].d,
                              adm |-> IF calls[c].op \in {"compile", "mustcompile"} THEN {} ELSE calls[c].out,
